@@ -54,6 +54,10 @@ def _post(result, args, kwargs, old):
 
 
 def _install(ctx, seed):
+    if _state.get('installed'):
+        _state['ctx'] = ctx
+        return
+    _state['installed'] = True
     import parso.grammar
     _state['ctx'] = ctx
     _state['rng'] = random.Random(seed)
